@@ -353,7 +353,17 @@ func init() {
 	})
 }
 
+// runC14: most cases run alone; some run as 2-3 concurrent sessions of the
+// same case shape in one process (package-level state in the code under test).
 func runC14(cs *vrt.Case) {
+	if cs.Idx%5 != 0 && cs.Idx%3 == 1 {
+		cs.Twins(2+(cs.Idx/7)%2, func(sub *vrt.Case, _ *vrt.Rng) { runC14One(sub) })
+		return
+	}
+	runC14One(cs)
+}
+
+func runC14One(cs *vrt.Case) {
 	r := cs.Rng
 	switch cs.Idx % 5 {
 	case 0:
